@@ -181,8 +181,24 @@ def validate(R, F, P, idx, s):
             if None not in lens and got_lens != want_lens:
                 okw = False
                 detw.append('field counts %s, want %s' % (got_lens, want_lens))
+        # reader side: the variant tags the derived deserializer accepts are exactly the variant names (an alias or rename puts declared method names and
+        # camel-cased variant names into one tag space, where `GetItem` (variant Getitem) and `get_item` (variant GetItem) collide: a call to one method is
+        # decoded as the other)
+        tags = []
+        for g in F.fns.values():
+            io = g.impl_of or {}
+            if g.id.endswith('::visit_str') and (io.get('self_head') or '').endswith('for %s::%s>::deserialize::__FieldVisitor' % (mod, en)):
+                for bb, t in g.calls():
+                    if callee_is(t, 'PartialEq::eq'):
+                        for a in t['args']:
+                            if a.get('k') == 'const' and a.get('v', '').startswith('"'):
+                                tags.append(a['v'].strip('"'))
+        want_tags = sorted(v['name'] for v in adt_['variants'])
+        if sorted(tags) != want_tags:
+            okw = False
+            detw.append('accepted variant tags %s, want %s' % (sorted(tags), want_tags))
         R.ob('C17.wire', key('%s always writes every field' % en), okw,
-             'the serializer derived for the generated enum announces, per variant, a constant field count equal to the number of arguments and never skips a field', [], '; '.join(sorted(set(detw))))
+             'the serializer derived for the generated enum announces, per variant, a constant field count equal to the number of arguments and never skips a field; the deserializer accepts exactly the variant names as tags', [], '; '.join(sorted(set(detw))))
     n = 0
     # ---- client methods
     for vi, me in enumerate(live):
